@@ -1118,21 +1118,31 @@ RULE = ("run i draws, from random.Random(splitmix64(VERIF_SEED,'C11',i)), "
         "amounts as Decimal/Fraction/int/float/str and unit multiples "
         "1/10/100), update with invalid validity, update with another kind "
         "of validity, get_rate / call with explicit or default date, clock "
-        "jump, clock tick during the next default-date lookup}; after every "
+        "jump, clock tick during the next default-date lookup, default-date "
+        "callable that raises / that loads rates into the converter before "
+        "it answers, feed of rate specs that breaks off / that makes another "
+        "update while it is read / that names the base currency, rates "
+        "above 1e6, late currencies, implicit conversions through the "
+        "registered converter, deep copy of a converter}; after every "
         "op get_rate is swept over all ordered currency pairs x 6 probe "
         "dates x all converters and compared with RefRates. Distinct = "
         "digest of (configuration, ops); non-trivial = >=2 updates, >=1 "
         "fault fired (rejected update, clock jump, mid-lookup tick) and >=4 "
         "sweeps.")
 ASSUMPTIONS = [
-    "single-threaded use",
+    "one thread; re-entrancy is simulated instead (an update made from "
+    "inside another update's feed of rate specs, or by the default-date "
+    "callable during a lookup; a lookup that overlaps an update may be "
+    "answered from the state before or after it)",
     "ExchangeRate construction / inversion arithmetic is trusted (C09 is "
     "not claimed): expected rates are built with the library's own "
     "constructor from the spec the model selects",
     "only documented spellings of a validity are generated as valid and "
-    "only clearly invalid ones as invalid; rate specs naming the base "
-    "currency or unknown symbols are not generated (C16); an update "
-    "without rate specs counts as an update (it fixes the kind)",
+    "only clearly invalid ones as invalid; a feed with a rate spec "
+    "naming the base currency may be refused as a whole or taken without "
+    "that entry (two-outcome oracle); an update without rate specs counts "
+    "as an update (it fixes the kind); copy.deepcopy of a converter gives "
+    "an independent converter with the same past",
     "decimalfp pure-Python implementation (see DESIGN.md 2.11)",
 ]
 REAL = ["quantity.money.MoneyConverter, ExchangeRate, Money, Currency from "
